@@ -149,6 +149,10 @@ type Engine struct {
 	stepMax       int
 	noPOR         bool
 	randLog       []RandRec
+	unwindFn      map[string]int
+	usedMemo      map[string]map[ssa.Value]bool
+	defaultCount  *Term
+	maxDefaults   int
 	lastRandN     *Term
 	lastRandR     *Term
 	trace         bool
@@ -180,7 +184,7 @@ func NewEngine(l *Loaded) *Engine {
 		reaches: map[string]*Term{}, unwindFail: TS.False, blocked: TS.False, nondets: map[string]*Term{},
 		funcsSeen: map[string]int{}, stubsSeen: map[string]int{}, loopsOf: map[*ssa.Function]*loopInfo{},
 		rpoOf: map[*ssa.Function]map[*ssa.BasicBlock]int{}, unwindWhere: map[string]bool{}, blockedAt: map[string]bool{},
-		lastRandN: BV(0, 64), lastRandR: BV(0, 64), stepMax: 4000000, maxSlice: 8, loopAllocMemo: map[string]bool{}, fnAllocMemo: map[*ssa.Function]bool{}}
+		usedMemo: map[string]map[ssa.Value]bool{}, defaultCount: BV(0, 8), maxDefaults: -1, lastRandN: BV(0, 64), lastRandR: BV(0, 64), stepMax: 4000000, maxSlice: 8, loopAllocMemo: map[string]bool{}, fnAllocMemo: map[*ssa.Function]bool{}}
 	return e
 }
 
@@ -577,6 +581,26 @@ func (e *Engine) allocCell(c *Config, t types.Type, kind string) *Cell {
 	return o.Root
 }
 
+// allocLocal names a non-escaping local by its static site only (call stack without loop counters).
+func (e *Engine) allocLocal(c *Config, t types.Type) *Cell {
+	var sb strings.Builder
+	sb.WriteString("local@")
+	for _, f := range c.stack {
+		fmt.Fprintf(&sb, "%s.%d.%d/", f.fn.String(), f.blk.Index, f.idx)
+	}
+	fmt.Fprintf(&sb, "[g%d]", c.gor.idx)
+	name := sb.String()
+	if o, ok := e.objs[name]; ok {
+		return o.Root
+	}
+	o := newObject(name)
+	o.Local = true
+	o.Root = newCell(t, o, "")
+	e.objs[name] = o
+	e.applyGuardTable(o.Root)
+	return o.Root
+}
+
 func (e *Engine) allocArray(c *Config, elem types.Type, n int, kind string) *Cell {
 	name := e.dynName(c, kind) + fmt.Sprintf("#%d", n)
 	if o, ok := e.objs[name]; ok {
@@ -786,7 +810,11 @@ func (e *Engine) jump(c *Config, f *Frame, to *ssa.BasicBlock) bool {
 				c.g = TS.False
 				return false
 			}
-			if f.loops[len(f.loops)-1].unw > e.unwind {
+			bound := e.unwind
+			if b, ok := e.unwindFn[f.fn.Name()]; ok {
+				bound = b
+			}
+			if lc.unw > bound || (e.mode == "sched" && lc.epoch > bound) {
 				e.unwindFail = Or(e.unwindFail, c.g)
 				p := e.prog.Fset.Position(to.Instrs[0].Pos())
 				e.unwindWhere[fmt.Sprintf("%s (%s:%d)", f.fn, shortFile(p.Filename), p.Line)] = true
@@ -962,10 +990,10 @@ func (e *Engine) feasible(g *Term) bool {
 		if err != nil {
 			return true
 		}
-		sv.useTac = false
+		sv.useTac = true
 		e.feas = sv
 	}
-	r := e.feas.Check([]*Term{g}, 2000, false)
+	r := e.feas.Check([]*Term{g}, 3000, false)
 	e.feasN++
 	e.feasMs += r.Dur.Milliseconds()
 	res := r.Status != "unsat"
